@@ -89,6 +89,27 @@ def run(chk):
                 if diffs: chk.obligation(name, 'E-MIR/fork', 'violated'); chk.violation(name, 'grammar-template', {'text': text, 'differences': diffs, 'mir': b.get('why')}, f'input {text!r}: ' + '; '.join(diffs)[:400])
                 else: chk.obligation(name + f' (counterexample {text!r}: {b.get("why")} does not reproduce natively)', 'E-MIR/fork', 'inconclusive')
             if not bad: chk.obligation(name, 'E-MIR/fork', 'holds', 0.0, True, {'template': g, 'edits': edits, 'paths': len(rs)})
+    # chains of binary operators: every pair (thorough: triple) of the nine binary operators between atoms
+    from .. import trees as TRm
+    B9 = list(TRm.BIN)
+    chains = [('binary chains p op p op p', {'pattern': [['prop'], B9, ['prop', 'group1'], B9, ['prop']]})]
+    chains.append(('unary / binary mixes', {'pattern': [['prop', 'not', 'EX'], ['prop', 'EU', 'and', 'not'], ['EU', 'AW', 'not', 'prop'], ['prop', 'AG', 'group3'], ['EU', 'or', 'prop'], ['prop', 'EX']]}))
+    if thorough: chains.append(('binary chains with three operators', {'pattern': [['prop'], B9, ['prop'], B9, ['prop'], B9, ['prop']]}))
+    for label, params in chains:
+        res, info = TL.explore_parallel('c05_tokens', params, budget=300)
+        chk.paths += len(res); chk.note_functions(info['functions'])
+        name = f'C05/E-MIR parse_hctl_tokens on {label} == reference parser ({len(res)} sequences)'
+        if info['errors']: chk.obligation(name + ' [' + info['errors'][0][:150] + ']', 'E-MIR/fork', 'inconclusive'); continue
+        bad = [r for r in res if r.get('ok') is not True]
+        for b in bad[:10]:
+            ctx = PathCtx(); I = TL.interp(); I.ctx = ctx
+            if 'seq' not in b: continue
+            toks = [TL._mk_token(I, c, i, ctx)[1] for i, c in enumerate(b['seq'])]
+            text = ' '.join(TL.token_text(t) for t in toks); chk.native_replays += 1
+            diffs = native_vs_reference(text)
+            if diffs: chk.obligation(name, 'E-MIR/fork', 'violated'); chk.violation(name, 'grammar-tokens', {'tokens': b['seq'], 'text': text, 'differences': diffs}, f'token sequence {text!r}: ' + '; '.join(diffs)[:400])
+            else: chk.obligation(name + f' (counterexample {text!r} does not reproduce natively)', 'E-MIR/fork', 'inconclusive')
+        if not bad: chk.obligation(name, 'E-MIR/fork', 'holds', 0.0, any(r.get('cls') == 'P' for r in res), {'pattern': label, 'sequences': len(res), 'accepted': sum(1 for r in res if r.get('cls') == 'P')})
     for L in Lt + ([5] if thorough else []):
         params = {'L': L} if L < 5 else {'L': L, 'classes': ['hyb_bind', 'and', 'iff', 'EU', 'not', 'EX', 'prop', 'var', 'group3', 'group_un']}
         res, info = TL.explore_parallel('c05_tokens', params, budget=300)
